@@ -353,6 +353,53 @@ def run_store_case(ctx, case, env, replies):
         else:
             if want.size and calls != sorted(slices_all):
                 return f'whole-array read requested {calls[:8]}, stored chunks are {sorted(slices_all)[:8]}'
+        # ---- parts of one array written at different offsets, and the same array written to two stores, each pair
+        #      of puts evaluated in ONE dask computation: every chunk arrives where it was sent
+        if x.ndim and not offset and len(chunks[0]) >= 2 and x.size and case['backend'] != 's3':
+            h = chunks[0][0]
+            rest = tuple(chunks[1:])
+            name3 = f'{name}_parts'
+            other = make_store(dict(case, _name=name3), env, x) if case['backend'] == 'dict' else store
+            try:
+                if case['backend'] != 'dict':
+                    other.create_array(name3)
+                p1 = other.put_dask_array(name3, da.from_array(x[:h], chunks=((h,),) + rest), (0,) * x.ndim)
+                p2 = other.put_dask_array(name3, da.from_array(x[h:], chunks=(tuple(chunks[0][1:]),) + rest),
+                                          (h,) + (0,) * (x.ndim - 1))
+                r1, r2 = dask.compute(p1, p2)
+                failed = [r for r in list(np.asarray(r1, dtype=object).ravel()) + list(np.asarray(r2, dtype=object).ravel())
+                          if r is not None]
+                back = other.get_dask_array(name3, chunks, dtype, errors='raise').compute()
+            except Exception as e:   # noqa: BLE001
+                return (f'two parts of one array written at offsets 0 and {h} in one dask computation: '
+                        f'{type(e).__name__}: {str(e)[:140]}')
+            if failed:
+                return f'joint put of two parts reported {type(failed[0]).__name__}: {failed[0]}'
+            if not zoo.same_array(back, x):
+                return (f'two parts of one array written at offsets 0 and {h} in one dask computation do not read back '
+                        f'as the array (both puts reported success)')
+            ctx.tag('joint-put-two-offsets')
+            # the same array name written to TWO stores in one dask computation: both stores receive their chunks
+            if case['backend'] == 'npy':
+                d2 = tempfile.mkdtemp(prefix='c07_second_')
+                try:
+                    second = NpyFileChunkStore(d2)
+                    name4 = f'{name}_twostores'
+                    store.create_array(name4)
+                    second.create_array(name4)
+                    dx4 = da.from_array(x, chunks=chunks)
+                    dask.compute(store.put_dask_array(name4, dx4), second.put_dask_array(name4, dx4))
+                    for label, st in (('first', store), ('second', second)):
+                        try:
+                            got = st.get_dask_array(name4, chunks, dtype, errors='raise').compute()
+                        except Exception as e:   # noqa: BLE001
+                            return (f'one array put to two stores in one dask computation (both puts reported '
+                                    f'success): reading it back from the {label} store raised {type(e).__name__}')
+                        if not zoo.same_array(got, x):
+                            return f'one array put to two stores in one dask computation: the {label} store differs'
+                    ctx.tag('joint-put-two-stores')
+                finally:
+                    shutil.rmtree(d2, ignore_errors=True)
         # ---- two lazy arrays of the same stored array restricted to different windows, computed in ONE graph
         if x.ndim and not offset and len(chunks[0]) >= 2 and x.size:
             sizes = list(chunks[0])
